@@ -18,7 +18,10 @@ for pid in ids:
     r = registry.CHECKS.get(pid)
     if not r and os.path.exists(os.path.join(ROOT, "checks", pid.lower() + ".py")):
         try:
-            r = getattr(importlib.import_module("checks." + pid.lower()), "MANIFEST", None)
+            mod = importlib.import_module("checks." + pid.lower())
+            r = getattr(mod, "MANIFEST", None)
+            if r is not None and "level" not in r and getattr(mod, "LEVEL", None):
+                r = dict(r, level=mod.LEVEL)
         except Exception as e:
             print("cannot import checks.%s: %r" % (pid.lower(), e))
             r = None
